@@ -25,6 +25,11 @@ def make_plan(tape, prop):
     for f in ("consts", "enums", "typedefs", "unions", "nested"):
         if tape.chance(1, 2):
             feats[f] = True
+    syntax = "isar" if tape.chance(1, 4) else "prophy"
+    if syntax == "isar":
+        for f in ("arr_dynamic", "arr_greedy", "bytes"):
+            feats[f] = False
+        feats["_forbid"] = ("arr_dynamic", "arr_greedy", "bytes")
     schema = None
     for _ in range(4):
         schema = gs.gen_schema(tape, feats=feats)
@@ -51,7 +56,7 @@ def make_plan(tape, prop):
         hi = max(hi, f)
         file_of[d["name"]] = f
         assign.append(f)
-    plan = {"sim": "fs", "prop": prop, "schema": schema, "assign": assign}
+    plan = {"sim": "fs", "prop": prop, "schema": schema, "assign": assign, "syntax": syntax}
     used = sorted(set(assign))
     plan["dirs"] = {str(f): tape.draw(len(DIRS)) for f in used}
     plan["spelling"] = tape.draw(1 << 16)
@@ -85,7 +90,8 @@ class Arrangement(object):
         self.defs = schema["defs"]
         self.files = sorted(set(plan["assign"]))
         self.dir_of = {f: DIRS[plan["dirs"][str(f)] % len(DIRS)] for f in self.files}
-        self.path_of = {f: "%s/p%d.prophy" % (self.dir_of[f], f) for f in self.files}
+        self.ext = ".xml" if plan.get("syntax") == "isar" else ".prophy"
+        self.path_of = {f: "%s/p%d%s" % (self.dir_of[f], f, self.ext) for f in self.files}
         inc = []
         if plan["inc_dirs"] & 1:
             inc.append("/w/inc1")
@@ -118,7 +124,7 @@ class Arrangement(object):
                 self.header = 99
                 self.files = self.files + [99]
                 self.dir_of[99] = DIRS[plan["dirs"].get("99", 0) % len(DIRS)]
-                self.path_of[99] = "%s/p99.prophy" % self.dir_of[99]
+                self.path_of[99] = "%s/p99%s" % (self.dir_of[99], self.ext)
                 self.includes[99] = []
                 for f in users:
                     self.includes[f].insert(0, 99)
@@ -171,9 +177,12 @@ class Arrangement(object):
         for f in self.files:
             mine = [d for d, a in zip(self.defs, self.plan["assign"]) if a == f]
             incs = [self.spell[(f, g)] for g in self.includes[f]]
-            text = render.prophy_text({"defs": mine}, includes=incs)
-            if f == 99:
-                text = "/* placeholder header: no declarations */\n// nothing here\n"
+            if self.ext == ".xml":
+                text = render.isar_text(mine, includes=incs)
+            else:
+                text = render.prophy_text({"defs": mine}, includes=incs)
+                if f == 99:
+                    text = "/* placeholder header: no declarations */\n// nothing here\n"
             fs.put(self.path_of[f], text)
         # decoy: same basename, different content, in a directory that comes later in the search order of *every*
         # file that includes g by its bare name (and is searched by at least one of them)
@@ -195,7 +204,8 @@ class Arrangement(object):
                                 ok = False
                     if ok and searched:
                         dec = "%s/%s" % (cand, base)
-                        fs.put(dec, "struct Decoy%d { u8 wrong; };\n" % g)
+                        fs.put(dec, "struct Decoy%d { u8 wrong; };\n" % g if self.ext != ".xml" else
+                               '<dom><struct name="Decoy%d"><member name="wrong" type="u8"/></struct></dom>' % g)
                         self.decoys[dec] = g
                         break
 
@@ -209,7 +219,7 @@ class Arrangement(object):
         args = []
         for d in self.inc:
             args += ["-I", show(d)]
-        return args + ["--python_out", show("/w/out")] + inputs
+        return (["--isar"] if self.ext == ".xml" else []) + args + ["--python_out", show("/w/out")] + inputs
 
 
 class _MultiWorld(object):
@@ -265,7 +275,11 @@ class FsRun(object):
             f, g = edges[plan["fault_at"] % len(edges)]
             text = fs.get(arr.path_of[g])
             back = _relpath(arr.path_of[f], arr.dir_of[g])
-            fs.put(arr.path_of[g], '#include "%s"\n' % back + text)
+            if arr.ext == ".xml":
+                fs.put(arr.path_of[g], text.replace("<dom xmlns:xi=\"http://www.w3.org/2001/XInclude\">",
+                                                    "<dom xmlns:xi=\"http://www.w3.org/2001/XInclude\"><xi:include href=\"%s\"/>" % back, 1))
+            else:
+                fs.put(arr.path_of[g], '#include "%s"\n' % back + text)
             victim = (arr.path_of[f], arr.path_of[g])
         argv = arr.argv()
         if fault == "missing":
@@ -281,7 +295,7 @@ class FsRun(object):
             self.trace.append("decoys: %s" % sorted(arr.decoys))
             self.probe("decoy_later_in_search_order")
         self.log.update("\n".join(self.trace).encode())
-        self.faults[fault] = self.faults.get(fault, 0) + 1
+        self.faults[fault + ("/isar" if arr.ext == ".xml" else "")] = self.faults.get(fault + ("/isar" if arr.ext == ".xml" else ""), 0) + 1
         if any("/../" in s for s in arr.spell.values()):
             self.probe("include_through_second_spelling")
         if arr.cwd not in ("/w",):
@@ -299,7 +313,7 @@ class FsRun(object):
             dry = simfs.FakeFS(arr.cwd)
             arr.populate(dry)
             simworld.run_prophyc(dry, argv)
-            inputs_abs = set(dry.abspath(a) for a in argv if a.endswith(".prophy"))
+            inputs_abs = set(dry.abspath(a) for a in argv if a.endswith((".prophy", ".xml")))
             # an include read = a read that happens while another file is being parsed: every read after the first
             cands = [k for k, p in enumerate(dry.reads) if k > 0]
             if not cands:
@@ -314,8 +328,8 @@ class FsRun(object):
         try:
             with clock:
                 if separate:
-                    inputs = [a for a in argv if a.endswith(".prophy")]
-                    common = [a for a in argv if not a.endswith(".prophy")]
+                    inputs = [a for a in argv if a.endswith((".prophy", ".xml"))]
+                    common = [a for a in argv if not a.endswith((".prophy", ".xml"))]
                     exc = None
                     for one in inputs:
                         before = len(fs.reads)
@@ -363,6 +377,13 @@ class FsRun(object):
         try:
             mods = simworld.import_generated(sources)
         except Exception as e:
+            enumerators = set(n for d in schema["defs"] if d["k"] == "enum" for n, _ in d["members"])
+            import re
+            m = re.search(r"name '(\w+)' is not defined", str(e))
+            if arr.ext == ".xml" and isinstance(e, NameError) and m and m.group(1) in enumerators:
+                return self.v("C16", "import", "C16/isar/enumerator-of-included-enum-not-imported",
+                              "generated Python module uses enumerator %s of an enum defined in an included file, but the "
+                              "import statement lists only type and constant names: %s" % (m.group(1), str(e)[:200]))
             return self.v("C16", "import", "C16/package-import-failed/%s/%s" % (type(e).__name__, _msgkey(e)),
                           "generated modules do not import as a package: %s: %s" % (type(e).__name__, str(e)[:300]))
         self.count("imports")
@@ -370,7 +391,10 @@ class FsRun(object):
         concat = {"defs": [d for f in arr.files for d, a in zip(arr.defs, plan["assign"]) if a == f]}
         R = rt.Resolved(concat)
         try:
-            single = simworld.World(render.prophy_text(concat))
+            if arr.ext == ".xml":
+                single = simworld.World(render.isar_text(concat["defs"]), syntax="isar")
+            else:
+                single = simworld.World(render.prophy_text(concat))
         except Exception as e:
             self.count("control_failed")
             return None
@@ -412,6 +436,15 @@ class FsRun(object):
     def check_fault(self, fault, victim, exc, stderr, fs, arr):
         victims = victim if isinstance(victim, tuple) else (victim,)
         bases = [posixpath.basename(x) for x in victims if x]
+        if arr.ext == ".xml" and fault in ("missing", "cycle"):
+            # the isar front-end downgrades missing and cyclic includes to a warning by design (asserted by the pinned
+            # suite): the weaker reading applies - reported, never silently dropped
+            self.count("isar_include_fault")
+            if not any(b in stderr and "warning" in stderr for b in bases):
+                return self.v("C16", "fault-silent", "C16/%s-include/isar-not-even-warned" % fault,
+                              "isar %s include of %s produced no warning naming the file; stderr: %r" %
+                              (fault, bases, stderr[:300]))
+            return None
         if exc is None:
             return self.v("C16", "fault-accepted", "C16/%s-include/compiled-successfully" % fault,
                           "the invocation succeeded although %s (%s)" %
